@@ -305,6 +305,8 @@ def replay(pid, path):
     with open(path) as f:
         data = json.load(f)
     case = data["case"] if "case" in data else data
+    if "seed" in data:
+        os.environ["VERIF_SEED"] = str(data["seed"])  # the run the replay file came from (per-case generator seed)
     res = worker.run_one(mod, case, install=True)
     kf = _findings.load()
     unl = [v for v in res["violations"] if _findings.match(kf, mod.ID, v.get("mechanism")) is None]
